@@ -8,6 +8,8 @@
 package main
 
 import (
+	"bytes"
+	"context"
 	"flag"
 	"fmt"
 	"time"
@@ -310,6 +312,31 @@ func targets() []target {
 			}
 			return true
 		}},
+		{"Transaction-through-StateMachine", func(b []byte) bool {
+			// what a node does with a transaction it was sent (mempool check / block validation): the real state machine,
+			// from decoding to the authorized-signer lookup (which builds store keys from message fields) and the handler
+			n := txNode()
+			n.Enter()
+			defer n.FSM.Reset()
+			res := new(lib.ApplyBlockResults)
+			if err := n.FSM.ApplyTransactions(context.Background(), [][]byte{b}, res, false); err != nil {
+				return false
+			}
+			return len(res.Results) == 1
+		}},
+		{"bft.Message-through-gossip", func(b []byte) bool {
+			// what ListenForConsensus does with a consensus message in gossip mode BEFORE any validation: decode, classify
+			// (ShouldGossip), forward (GossipConsensus)
+			m := new(bft.Message)
+			if err := lib.Unmarshal(b, m); err != nil {
+				return false
+			}
+			if m.IsProposerMessage() || m.IsPacemakerMessage() || m.IsReplicaMessage() {
+				gossipNode().C.GossipConsensus(m, nil)
+				return true
+			}
+			return false
+		}},
 		{"TxMessage", func(b []byte) bool {
 			m := new(lib.TxMessage)
 			return lib.Unmarshal(b, m) == nil
@@ -322,12 +349,71 @@ func targets() []target {
 	}
 }
 
+var txNodeV *sim.FNode
+
+// txNode: a small real chain (state machine over an in-memory store) that untrusted transactions are played against
+func txNode() *sim.FNode {
+	if txNodeV == nil {
+		g := &sim.GenesisSpec{Params: fsm.DefaultParams()}
+		for i := 0; i < 3; i++ {
+			g.Validators = append(g.Validators, sim.StdValidator(i, 1000000, 1, 2))
+			g.Accounts = append(g.Accounts, &fsm.Account{Address: sim.BLSKey(i).Addr, Amount: 5_000_000_000})
+		}
+		n, err := sim.NewFNode(g.State(), nil)
+		if err != nil {
+			panic(err)
+		}
+		txNodeV = n
+	}
+	return txNodeV
+}
+
+var gossipNodeV *sim.CNode
+
+// gossipNode: a controller with an (unstarted, peerless) P2P module
+func gossipNode() *sim.CNode {
+	if gossipNodeV == nil {
+		g := &sim.GenesisSpec{Params: fsm.DefaultParams()}
+		for i := 0; i < 3; i++ {
+			g.Validators = append(g.Validators, sim.StdValidator(i, 1000000))
+			g.Accounts = append(g.Accounts, &fsm.Account{Address: sim.BLSKey(i).Addr, Amount: 5_000_000_000})
+		}
+		n, err := sim.NewCNode(g.State(), 0, nil)
+		if err != nil {
+			panic(err)
+		}
+		gossipNodeV = n
+	}
+	return gossipNodeV
+}
+
 func seeds(r *sim.Rng) map[string][][]byte {
 	out := map[string][][]byte{}
 	k := sim.BLSKey(0)
 	tx, _ := fsm.NewSendTransaction(k.Priv, crypto.NewAddress(sim.BLSKey(1).Addr), 5, 1, 1, 10000, 3, "memo")
 	txb, _ := lib.Marshal(tx)
 	out["Transaction"] = [][]byte{txb}
+	// order messages whose order id is of every length class, signed or with a garbage signature (the authorized signers are
+	// looked up - by order id - before the signature is verified)
+	sm := [][]byte{txb}
+	for _, n := range []int{0, 1, 20, 32, 255, 256, 300, 511, 512, 1000} {
+		id := lib.BytesToString(bytes.Repeat([]byte{0xFE}, n))
+		if t, e := fsm.NewDeleteOrderTx(k.Priv, id, 2, 1, 1, 10000, 1, "d"); e == nil {
+			b, _ := lib.Marshal(t)
+			sm = append(sm, b)
+		}
+		if t, e := fsm.NewEditOrderTx(k.Priv, id, 1000, 10, 2, nil, k.Addr, 1, 1, 10000, 1, "e"); e == nil {
+			b, _ := lib.Marshal(t)
+			sm = append(sm, b)
+			bad := new(lib.Transaction)
+			if lib.Unmarshal(b, bad) == nil && bad.Signature != nil {
+				bad.Signature.Signature = bytes.Repeat([]byte{0x42}, 96)
+				b2, _ := lib.Marshal(bad)
+				sm = append(sm, b2)
+			}
+		}
+	}
+	out["Transaction-through-StateMachine"] = sm
 	hdr := &lib.BlockHeader{Height: 3, NetworkId: 1, Time: 77, ProposerAddress: k.Addr, LastBlockHash: crypto.Hash([]byte("a")), StateRoot: crypto.Hash([]byte("b")),
 		TransactionRoot: crypto.Hash([]byte("c")), ValidatorRoot: crypto.Hash([]byte("d")), NextValidatorRoot: crypto.Hash([]byte("e"))}
 	blk := &lib.Block{BlockHeader: hdr, Transactions: [][]byte{txb}}
@@ -345,6 +431,15 @@ func seeds(r *sim.Rng) map[string][][]byte {
 	msg := &bft.Message{Header: qc.Header, Qc: qc, Signature: &lib.Signature{PublicKey: k.Pub, Signature: make([]byte, 96)}}
 	mb, _ := lib.Marshal(msg)
 	out["bft.Message"] = [][]byte{mb}
+	// proposer messages (header set) whose certificate has no header / is empty, a replica vote, a pacemaker message
+	el := &bft.Message{Header: &lib.View{NetworkId: 1, ChainId: 1, Height: 3, RootHeight: 3, Phase: lib.Phase_ELECTION}, Qc: &lib.QuorumCertificate{}}
+	elb, _ := lib.Marshal(el)
+	vote := &bft.Message{Qc: &lib.QuorumCertificate{Header: &lib.View{NetworkId: 1, ChainId: 1, Height: 3, RootHeight: 3, Phase: lib.Phase_PROPOSE_VOTE}, BlockHash: hdr.Hash, ResultsHash: crypto.Hash(rb), ProposerKey: k.Pub},
+		Signature: &lib.Signature{PublicKey: k.Pub, Signature: make([]byte, 96)}}
+	vb, _ := lib.Marshal(vote)
+	pm := &bft.Message{Qc: &lib.QuorumCertificate{Header: &lib.View{NetworkId: 1, ChainId: 1, Height: 3, RootHeight: 3, Round: 2, Phase: lib.Phase_ROUND_INTERRUPT}}}
+	pb, _ := lib.Marshal(pm)
+	out["bft.Message-through-gossip"] = [][]byte{mb, elb, vb, pb, {0x0a, 0x02, 0x30, 0x01, 0x1a, 0x00}}
 	tm, _ := lib.Marshal(&lib.TxMessage{ChainId: 1, Txs: [][]byte{txb, txb}})
 	out["TxMessage"] = [][]byte{tm}
 	out["DecodeLengthPrefixed(safe wrappers)"] = [][]byte{fsm.KeyForAccount(crypto.NewAddress(k.Addr)), fsm.KeyForPool(7)}
@@ -522,7 +617,11 @@ func decoderRuns(r *sim.Rng, n int, outDir string) {
 				st.DecodeRej++
 			}
 			st.DecodeRuns++
-			for i := 0; i < n; i++ {
+			nm := n
+			if t.name == "Transaction-through-StateMachine" {
+				nm = n / 25 // many seeds, each run goes through the state machine
+			}
+			for i := 0; i < nm; i++ {
 				m := mutate(r, s)
 				if runGuarded(outDir, t, m) {
 					st.DecodeOK++
